@@ -10,7 +10,7 @@ namespace
 // IS <T> <deco> <eng> <seed> <act>+           std::uniform_int_distribution, tapes on d / w / g
 // RS <ur|no> <T> <deco> <eng> <seed> <act>+   uniform_real / normal
 // acts: n:i:a:b  n2:i:a:b  mk:i:a:b  cc:i:j  ca:i:j  mc:i:j  ma:i:j  sw:i:j  d:i:n[:tape]  r:i  p:i:a:b  e:i:j  q:i
-//       v:k:i  vm:k:i  vp:k:a:b  vc:k:l  va:k:l  w:k:n[:tape]  g:n[:tape]
+//       v:k:i  vm:k:i  vp:k:a:b  vc:k:l  va:k:l  vx:k:l  vy:k:l  w:k:n[:tape]  g:n[:tape]
 constexpr std::size_t dist_slots = 4U;
 constexpr std::size_t var_slots = 3U;
 
@@ -59,6 +59,17 @@ std::string run_script(std::vector<std::string> const &t, std::size_t const seed
   using sh = shape<R>;
   using B = typename sh::base;
   constexpr bool with_tape = !std::is_same_v<FG, fc_ctr>;
+  // the member typedefs of the public interface
+  static_assert(std::is_same_v<typename D::distribution_type, D> && std::is_same_v<typename D::param_type, P>);
+  static_assert(std::is_same_v<typename D::result_type, R> && std::is_same_v<typename P::result_type, R>);
+  static_assert(std::is_same_v<typename D::wrapped_distribution, typename P::distribution>);
+  static_assert(std::is_same_v<typename P::wrapped_param_type, typename P::distribution::param_type>);
+  static_assert(std::is_same_v<typename D::wrapped_distribution, typename K::template stddist<B>> || std::is_same_v<W, mod_wrapper>);
+  static_assert(std::is_same_v<typename V::generator, FG> && std::is_same_v<typename V::distribution, D>);
+  static_assert(std::is_same_v<typename V::result_type, R> && std::is_same_v<typename V::param_type, P>);
+  static_assert(std::is_same_v<typename V::generator_reference, fcppt::reference<FG>>);
+  static_assert(!std::is_copy_constructible_v<FG> && !std::is_move_constructible_v<FG> && !std::is_copy_assignable_v<FG>);
+  static_assert(std::is_same_v<decltype(FG::min()), typename FG::result_type> && FG::min() < FG::max());
   if (t.size() < seed_at + 2U)
     throw bad_op{};
   FG gen{typename FG::seed{parse_base<typename FG::result_type>(t[seed_at])}};
@@ -192,22 +203,26 @@ std::string run_script(std::vector<std::string> const &t, std::size_t const seed
       P const p{params(f[2], f[3])};
       vs[k].emplace(fcppt::make_ref(gen), p);
     }
-    else if (name == "vc" || name == "va")
+    else if (name == "vc" || name == "va" || name == "vx" || name == "vy")
     {
       fields(3U);
       std::size_t const k{slot_index(f[1], var_slots)}, l{slot_index(f[2], var_slots)};
+      if (name != "va" && k == l)
+        throw bad_op{};
       if (name == "vc")
       {
-        if (k == l)
-          throw bad_op{};
         V const &src{need(vs[l])};
         vs[k].emplace(src);
       }
-      else
+      else if (name == "va")
       {
         V const &src{need(vs[l])};
         need(vs[k]) = src; // k == l: self-assignment
       }
+      else if (name == "vx")
+        vs[k].emplace(std::move(need(vs[l])));
+      else
+        need(vs[k]) = std::move(need(vs[l]));
     }
     else if (name == "g")
     {
@@ -316,14 +331,14 @@ std::string run_script_std(std::vector<std::string> const &t, std::size_t const 
       std::size_t const k{slot_index(f[1], var_slots)};
       vs[k].emplace(SP{parse_base<B>(f[2]), parse_base<B>(f[3])});
     }
-    else if (name == "vc" || name == "va")
+    else if (name == "vc" || name == "va" || name == "vx" || name == "vy")
     {
       fields(3U);
       std::size_t const k{slot_index(f[1], var_slots)}, l{slot_index(f[2], var_slots)};
-      if (name == "vc" && k == l)
+      if (name != "va" && k == l)
         throw bad_op{};
       SD const copy{need(vs[l])};
-      if (name == "vc")
+      if (name == "vc" || name == "vx")
         vs[k].emplace(copy);
       else
         need(vs[k]) = copy;
@@ -457,7 +472,7 @@ std::string op_RS(std::vector<std::string> const &t)
 }
 
 // ---------------------------------------------------------------- container scripts
-// XU <c|m> <seed> <elems|-> <act>+    acts: f:i  k:i:lo:hi  cc:i:j  ca:i:j  d:i:n  w:pos:x  t:i:x
+// XU <c|m> <seed> <elems|-> <act>+    acts: f:i  k:i:lo:hi  cc:i:j  ca:i:j  mc:i:j  ma:i:j  d:i:n  w:pos:x  t:i:x
 template <typename Cont>
 std::string run_cscript(std::vector<std::string> const &t)
 {
@@ -465,6 +480,9 @@ std::string run_cscript(std::vector<std::string> const &t)
   using U = fcppt::random::wrapper::uniform_container<Cont, mod_wrapper>;
   using P = typename U::param_type;
   using size_type = typename plain::size_type;
+  static_assert(std::is_same_v<typename U::container_reference, fcppt::reference<Cont>>);
+  static_assert(std::is_same_v<typename U::result_type, std::conditional_t<std::is_const_v<Cont>, int const &, int &>>);
+  static_assert(std::is_same_v<P, fcppt::random::distribution::parameters::uniform_int<size_type, mod_wrapper>>);
   constexpr std::size_t slots = 3U;
   plain storage;
   for (long long const e : vh::int_list(t[3]))
@@ -505,19 +523,26 @@ std::string run_cscript(std::vector<std::string> const &t)
           fcppt::reference<Cont>{c},
           P{typename P::min{parse_base<size_type>(f[2])}, typename P::max{parse_base<size_type>(f[3])}});
     }
-    else if (name == "cc" || name == "ca")
+    else if (name == "cc" || name == "ca" || name == "mc" || name == "ma")
     {
       fields(3U);
       std::size_t const i{slot_index(f[1], slots)}, j{slot_index(f[2], slots)};
-      U const &src{need(us[j])};
+      if (name != "ca" && i == j)
+        throw bad_op{};
       if (name == "cc")
       {
-        if (i == j)
-          throw bad_op{};
+        U const &src{need(us[j])};
         us[i].emplace(src);
       }
+      else if (name == "ca")
+      {
+        U const &src{need(us[j])};
+        need(us[i]) = src; // i == j: self-assignment
+      }
+      else if (name == "mc")
+        us[i].emplace(std::move(need(us[j])));
       else
-        need(us[i]) = src;
+        need(us[i]) = std::move(need(us[j]));
     }
     else if (name == "d")
     {
